@@ -38,7 +38,7 @@ struct Ob { out: Vec<Option<i32>>, pulls: u64, exhausted: bool }
 /// handed out is consumed all the same (token `L<k>` instead of `F<k>`)
 struct Case { cap: usize, start: usize, prefill: Vec<i32>, src: Vec<i32>, ops: Vec<Op>, leak: bool }
 
-fn run_buffered<D>(rb: ring_buffer::Bounded<D>, c: &Case) -> (Vec<Ob>, Vec<i32>)
+fn run_buffered<D>(rb: ring_buffer::Bounded<D>, c: &Case, probe: bool) -> (Vec<Ob>, Vec<i32>)
 where
     D: ring_buffer::Slice<Element = i32> + ring_buffer::SliceMut,
 {
@@ -58,22 +58,24 @@ where
             Op::Until => Signal::by_ref(&mut b).until_exhausted().take(limit).map(Some).collect(),
             Op::Look => vec![],
         };
-        obs.push(Ob { out, pulls: pulls.get(), exhausted: b.is_exhausted() });
+        obs.push(Ob { out, pulls: pulls.get(), exhausted: if probe { b.is_exhausted() } else { false } });
     }
     let (_sig, rb) = b.into_parts();
     let rest: Vec<i32> = rb.iter().cloned().collect();
     (obs, rest)
 }
 
-fn run_case(c: &Case) -> Option<(Vec<Ob>, Vec<i32>)> {
+fn run_case(c: &Case) -> Option<(Vec<Ob>, Vec<i32>)> { run_case_p(c, true) }
+/// `probe = false`: `is_exhausted()` is never asked between the operations
+fn run_case_p(c: &Case, probe: bool) -> Option<(Vec<Ob>, Vec<i32>)> {
     // backing storage: every slot outside the live window holds garbage that must never be seen
     let mut data = vec![-777_777i32; c.cap];
     for (i, &v) in c.prefill.iter().enumerate() { data[(c.start + i) % c.cap] = v; }
     let (start, len) = (c.start, c.prefill.len());
     match (c.cap + c.src.len() + c.start) % 3 {
-        0 => guarded(|| run_buffered(ring_buffer::Bounded::from_raw_parts(start, len, data), c)),
-        1 => guarded(|| run_buffered(ring_buffer::Bounded::from_raw_parts(start, len, data.into_boxed_slice()), c)),
-        _ => guarded(|| { let mut d = data; run_buffered(ring_buffer::Bounded::from_raw_parts(start, len, &mut d[..]), c) }),
+        0 => guarded(|| run_buffered(ring_buffer::Bounded::from_raw_parts(start, len, data), c, probe)),
+        1 => guarded(|| run_buffered(ring_buffer::Bounded::from_raw_parts(start, len, data.into_boxed_slice()), c, probe)),
+        _ => guarded(|| { let mut d = data; run_buffered(ring_buffer::Bounded::from_raw_parts(start, len, &mut d[..]), c, probe) }),
     }
 }
 
@@ -194,6 +196,12 @@ fn rand_vals(rng: &mut Rng, n: usize, base: i32) -> Vec<i32> {
 fn case(st: &mut Stream, c: &Case, kind: &str) {
     let l = line(c);
     mark(0, &l);
+    // short cases also run WITHOUT ever asking is_exhausted(): the frames, the pulls and what is left must be the same
+    if c.ops.len() <= 64 {
+        let (p, q) = (run_case_p(c, true), run_case_p(c, false));
+        let same = match (&p, &q) { (Some((a, ra)), Some((b, rb))) => ra == rb && a.len() == b.len() && a.iter().zip(b.iter()).all(|(x, y)| x.out == y.out && x.pulls == y.pulls), (None, None) => true, _ => false };
+        if same { st.oracle_ok(1); } else { st.oracle_fail("the case behaves differently when is_exhausted() is never asked between the operations (an accessor must not be what keeps the state right)", &l, &show(&p), &show(&q)); }
+    }
     if c.leak { st.count("case_with_batch_iterators_leaked_mem_forget"); }
     let r = run_case(c);
     // non-trivial: anything the three doc examples (2 slots, start 0, empty or full pre-fill, 4-frame source,
